@@ -51,6 +51,14 @@ def three_field_start():
                                  F('b', 'Int'), F('c', 'Int', null=True)])]))
 
 
+def indexed_start():
+    """Fields that already carry a unique constraint / an index, so that
+    the *removing* attribute changes are in the menu from the first step."""
+    return P(A('va', [M('Item', [F('a', 'Char', max_length=20, unique=True),
+                                 F('b', 'Int', db_index=True),
+                                 F('c', 'Int', null=True)])]))
+
+
 # ------------------------------------------------------------ observations
 
 def observe_db():
@@ -700,6 +708,8 @@ def tasks_for(tier):
               ('W2', 'W5', 'W3'))
         shard('three-field-d2', three_field_start(), 'R2', 2, 'full',
               NARROW_KINDS, ('W2', 'W3'))
+        shard('indexed-d2', indexed_start(), 'R2', 2, 'full',
+              ('AddField', 'DeleteField', 'ChangeField'), ('W2', 'W3'))
         # name re-use needs four steps (change, rename away, add again,
         # change): tiny alphabet, deeper
         shard('reuse-d4', narrow_start(), 'R2', 4, 'tiny', REUSE_KINDS,
@@ -718,6 +728,10 @@ def tasks_for(tier):
               ('W2', 'W5', 'W3', 'W4'))
         shard('three-field-d3', three_field_start(), 'R2', 3, 'lite',
               NARROW_KINDS, ('W2', 'W3'))
+        shard('indexed-d3', indexed_start(), 'R2', 3, 'lite',
+              NARROW_KINDS, ('W2', 'W3'))
+        shard('indexed-full-d2', indexed_start(), 'R2', 2, 'full',
+              NARROW_KINDS, ('W2', 'W5', 'W3'))
     return tasks
 
 
